@@ -5,6 +5,7 @@ import threading
 from core import Case, hx, ac, cvn, cvv, kd, mac, sm, tlv, tools, canon, run_model, PROJ, proj_class
 from gens import *  # noqa: F401,F403
 import gens
+import props_b
 from props_a import enum_digest, BH_ACCEPT
 from props_b import CardPool, cvn_scenario, CLS, cvn_case
 
@@ -139,6 +140,7 @@ def C14(ctx):
                                         lambda buf, k=k: sm.encrypt_command_data(k, buf, sm.EncryptionType.EMV), "reused data buffer")
         rb_cases += reused_buffer_cases([g.fresh_key() for _ in range(3)], lambda c, d=d: f"sm.command_mac {hx(c)} {hx(d[0])} -",
                                         lambda buf, d=d: sm.generate_command_mac(buf, d[0]), "reused key buffer")
+    rb_cases += props_b.atc_buffer_cases(R, pool)
     ctx.run_cases(rb_cases)
     # no call modifies its arguments or an object's stored keys
     for _ in range(ctx.n(3000, 30000)):
@@ -219,7 +221,7 @@ def sized_params(g):
         P("ac.arpc2", [16, 8, 4], lambda v: op_arpc2(v[0], v[1], v[2], R.choice([None, R.randbytes(R.randrange(0, 9))]), proj="class")),
         P("kd.common_sk", [16, 8], lambda v: op_common_sk(v[0], v[1], proj="class")),
         P("kd.visa_sk", [16, 2], lambda v: op_visa_sk(v[0], v[1], proj="class")),
-        P("kd.tree_sk", [16, 2, 16], lambda v: op_tree_sk(v[0], v[1], *R.choice([(8, 4), (8, 4), (8, 4), (16, 2), (1, 65535), (2, 255), (1, 1)]), v[2], proj="class")),
+        P("kd.tree_sk", [16, 2, 16], lambda v: op_tree_sk(v[0], v[1], *R.choice([(8, 4), (8, 4), (16, 2), (1, 65536), (1, 65536), (1, 70000), (1, 65535), (2, 255), (2, 256), (1, 1)]), v[2], proj="class")),
         P("sm.command_mac", [16], lambda v: op_command_mac(v[0], g.msg(), None, proj="class")),
         P("sm.encrypt", [16], lambda v: op_encrypt(v[0], g.msg(), R.choice(["VISA", "MASTERCARD", "EMV"]), proj="class")),
         P("sm.vis_pin", [16], lambda v: op_vis_pin(v[0], g.form(g.digits(R.randrange(4, 13))), g.form(R.choice([None, g.digits(R.randrange(4, 13))])), proj="class")),
@@ -332,7 +334,15 @@ def C16(ctx):
     rare, _, _ = rare_pairs(ctx.sub("rare"), 30, letters_needed=False)
 
     def forms(s):
-        return [s] if s is None else [s, s.encode()]
+        if s is None:
+            return [s]
+        out = [s, s.encode()]
+        c = R.random()
+        if c < .15:
+            out.append(gens.RawBytes(s.encode()))       # a bytes subclass instance (numpy.bytes_, HexBytes, … are)
+        elif c < .3:
+            out.append(gens.MaskedStr(s))
+        return out
     n = 0
     for _ in range(ctx.n(1500, 15000)):
         k = g.key()
